@@ -31,6 +31,9 @@ func (fg *FuncGen) instr(in ssa.Instruction) {
 			fg.setFam("B_runes", "(store "+fg.famIn(fg.st, "B_runes")+" "+ref+" 0)")
 			fg.setFam("B_ok", "(store "+fg.famIn(fg.st, "B_ok")+" "+ref+" true)")
 		}
+		if nt, ok := elem.(*types.Named); ok && v.Heap {
+			fg.allocSiteAsserts(v, nt.Obj().Name())
+		}
 	case *ssa.BinOp:
 		fg.binop(v)
 	case *ssa.UnOp:
